@@ -1,4 +1,4 @@
-"""VM-level witness search for C09 (`resize`): operands of every kind, run on a sqfvm built from the current tree; a crash
+"""VM-level witness search for C09 (`resize`, `deleteAt`, `deleteRange`, `select [start, length]`): operands of every kind, run on a sqfvm built from the current tree; a crash
 (non-zero exit without a result line), a hang or a wrong result is the witness."""
 import subprocess, tempfile, os
 CASES = [
@@ -17,6 +17,14 @@ CASES = [
     ('deleteAt behind the end leaves the array unchanged', 'a = [1,2,3]; a deleteAt 3; a', '[1,2,3]'),
     ('deleteAt with a negative index leaves the array unchanged', 'a = [1,2,3]; a deleteAt -1; a', '[1,2,3]'),
     ('deleteAt with a huge index leaves the array unchanged', 'a = [1,2,3]; a deleteAt 1e10; a', '[1,2,3]'),
+    ('select copies the range', '[1,2,3,4] select [1, 2]', '[2,3]'),
+    ('select clamps the length', '[1,2,3,4] select [2, 9]', '[3,4]'),
+    ('select at the end gives an empty array', '[1,2,3,4] select [4, 2]', '[]'),
+    ('select behind the end gives an empty array', '[1,2,3] select [200, 2e9]', '[]'),
+    ('select with a negative length gives an empty array', '[1,2,3] select [1, -1]', '[]'),
+    ('select with a length near 2^31 does not overflow', 'a = []; a resize 200; count (a select [150, 2147483520])', '50'),
+    ('select with one parameter', 'count ([1,2,3] select [1])', '0'),
+    ('select with a parameter of the wrong type', '{ [1,2,3] select [1, "x"] } except__ { }; 7', '7'),
 ]
 def search(sqfvm):
     for (name, code, want) in CASES:
